@@ -58,6 +58,9 @@ struct cds_lfht_node *G_wv;
 static void mk_add(void)
 {
 	lf_mk();
+#ifdef LF_CAS_FAIL_ONCE
+	G_cas_fail_budget = 1; G_cas_failed = 0;	/* the insertion compare-and-swap may fail once (transient interference) */
+#endif
 	G_noflags = 1;			/* sequentially reachable chain: no REMOVED / REMOVAL_OWNER flag anywhere */
 	G_x = &X;
 	VIN(unsigned long, in_xrh); VIN(unsigned long, in_hash);
@@ -71,6 +74,9 @@ static void mk_add(void)
 #define P (G_cas_pos)
 static void post_inserted(void)
 {
+#ifdef LF_CAS_FAIL_ONCE
+	VERIF_COVER(G_cas_failed == 1);
+#endif
 	VERIF_ASSERT(G_cas_count == 1 && !G_cas_isx, "add: exactly one store into the chain");
 	VERIF_ASSERT(P >= G_b && P < G_n, "add: inserted at or after its bucket");
 	VERIF_ASSERT(G_pool[P].next == LF_TAG(&X, G_fl[P] & 2), "add: predecessor now links to the new node and keeps its own BUCKET bit");
